@@ -181,11 +181,11 @@ def compat(nfields: int):
     D = RecordDescriptor("t/compat", [("record", f"f{i}") for i in range(nfields)])
     gen = _dt.datetime(2020, 1, 2, 3, 4, 5, 6, tzinfo=_dt.timezone.utc)
 
-    def check(a: int, b: Optional[int], c: int, e: int, versioned: bool, has_src: bool, has_cls: bool, x0: int, xkind: int) -> bool:
+    def check(a: int, b: Optional[int], c: int, e: int, versioned: bool, has_src: bool, has_cls: bool, x0: int, xkind: int, ver: int) -> bool:
         """
         post: _
         """
-        if not (0 <= e <= 3 and 0 <= xkind <= 2):
+        if not (0 <= e <= 3 and 0 <= xkind <= 2 and 1 <= ver <= 3):
             return True
         if not versioned and e != 0:
             return True  # extra reserved fields imply a version field (format rule)
@@ -200,7 +200,8 @@ def compat(nfields: int):
             extras.append(3.5)
         src = "S" if has_src else None
         cls = "C" if has_cls else None
-        values = tuple(vals + [src, cls, gen] + extras + ([1] if versioned else []))
+        # a later release may write another version number (the reader warns and goes on) together with further reserved values
+        values = tuple(vals + [src, cls, gen] + extras + ([ver] if versioned else []))
         tree = msgtree.Ext(wire.EXT, (wire.T_RECORD, ((D.name, wire.descriptor_hash(D.name, D.get_field_tuples())), values)))
         with msgtree.installed(), warnings.catch_warnings():
             warnings.simplefilter("ignore")
@@ -338,6 +339,8 @@ def end_to_end(ignore: bool = False):
         wire.Rec("ref/rec", fields, ("extras", 2**80, None, None, gen, "tlp:amber", gen, 1)),
         wire.Rec("ref/rec", fields, ("int-extra", -(2**70), None, None, gen, 1337, 1)),
         wire.Rec("ref/rec", fields, ("unversioned", 4, "s", None, gen)),
+        wire.Rec("ref/rec", fields, ("later-version", 6, None, "c", gen, 2)),
+        wire.Rec("ref/rec", fields, ("later-version-extras", 7, "s7", None, gen, "tlp:red", 99, 3)),
         wire.Grouped("g", [wire.Rec("ref/rec", fields, ("member", 5, None, None, gen, 1))]),
     ]
     import warnings
@@ -348,7 +351,8 @@ def end_to_end(ignore: bool = False):
             back = list(RecordStreamReader(io.BytesIO(wire.encode_stream(objs))))
         except Exception as e:  # noqa: BLE001
             return {"ok": False, "detail": f"implementation rejects a conforming stream: {type(e).__name__}: {e}", "cex": {"direction": "ref->impl"}}
-    exp = [("plain", 1, "src", "cls"), ("extras", 2**80, None, None), ("int-extra", -(2**70), None, None), ("unversioned", 4, "s", None), ("member", 5, None, None)]
+    exp = [("plain", 1, "src", "cls"), ("extras", 2**80, None, None), ("int-extra", -(2**70), None, None), ("unversioned", 4, "s", None), ("later-version", 6, None, "c"), ("later-version-extras", 7, "s7", None),
+           ("member", 5, None, None)]
     seen = [(r.label, r.n, r._source, r._classification) for r in back]
     ok = seen == exp and all(r._generated == gen and r._version == 1 for r in back)
     return {"ok": ok, "detail": f"{len(recs)} records impl->reference, {len(exp)} records reference->impl" if ok else f"implementation decodes the reference stream to {seen}", "cex": {"direction": "ref->impl"}}
@@ -452,7 +456,7 @@ def obligations(tier, seed):
     for first in range(NSEQ):
         obs.append(ob(f"O6-sequences/K{k}/first{first}", "xh", "seq_ref", {"k": k, "first": first}, timeout=to * 2, group="O6-sequences", bounds=f"{k} records x {NSEQ} kinds in one stream, decoded by the reference codec"))
     for n in (0, 2, 3):
-        obs.append(ob(f"O5-compat/{n}fields", "xh", "compat", {"nfields": n}, timeout=to * 2, group="O5-compat", bounds="0..3 extra reserved values (int / text / None first), version present or absent"))
+        obs.append(ob(f"O5-compat/{n}fields", "xh", "compat", {"nfields": n}, timeout=to * 2, group="O5-compat", bounds="0..3 extra reserved values (int / text / None first), version field absent or 1..3"))
     return obs
 
 
